@@ -275,3 +275,35 @@ Proof.
   rewrite (census_spec_count _ _ _ _ r c _ Hw Hodd Hs).
   rewrite census_hamming by assumption. reflexivity.
 Qed.
+
+(* ------------------------------------------------------------------ the census cost never exceeds cmax = w * w *)
+
+Lemma zsum_range_bound : forall {X} (f : X -> Z) hi l, (forall x, In x l -> 0 <= f x <= hi) ->
+  0 <= zsum (map f l) <= Z.of_nat (length l) * hi.
+Proof.
+  induction l as [|a l IH]; intros H; cbn [map zsum length]; [lia|].
+  rewrite Nat2Z.inj_succ. pose proof (H a (or_introl eq_refl)).
+  assert (0 <= zsum (map f l) <= Z.of_nat (length l) * hi) by (apply IH; intros; apply H; now right).
+  lia.
+Qed.
+
+Lemma census_cost_bounded : forall inp dmin dmax r c k z, wf_cfg inp -> i_w inp * i_w inp <= 32 ->
+  0 <= r < i_ny inp -> 0 <= c < i_nx inp -> 0 <= k < nb_disp (i_s inp) dmin dmax ->
+  census_volume_z inp dmin dmax r c k = Some z -> 0 <= z <= cmax Census inp.
+Proof.
+  intros inp dmin dmax r c k z Hwf Hww Hr Hc Hk H.
+  rewrite (census_volume_z_eq inp dmin dmax r c k Hwf Hww Hr Hc Hk) in H. cbv zeta in H.
+  destruct (computable_in inp r c (disp_scaled (i_s inp) dmin k)); [|discriminate].
+  inversion H as [E]. clear H E. destruct Hwf as [Hw _].
+  rewrite census_hamming by assumption. cbn [cmax].
+  set (w := i_w inp) in *.
+  assert (L : Z.of_nat (length (zrange 0 w)) = w).
+  { unfold zrange. rewrite range_length. lia. }
+  match goal with |- 0 <= zsum (map ?f _) <= _ =>
+    pose proof (zsum_range_bound f w (zrange 0 w)) as B end.
+  rewrite L in B. apply B. intros a _.
+  match goal with |- 0 <= zsum (map ?g _) <= _ =>
+    pose proof (zsum_range_bound g 1 (zrange 0 w)) as B2 end.
+  rewrite L in B2. rewrite Z.mul_1_r in B2. apply B2. intros b _.
+  destruct (xorb _ _); cbn [Z.b2z]; lia.
+Qed.
